@@ -4,9 +4,11 @@ package c10
 
 import (
 	"fmt"
+	"math/bits"
 	"sort"
 	"strconv"
 	"strings"
+	"unicode/utf8"
 
 	"pgregory.net/rapid"
 	"verifharness/pbt"
@@ -22,16 +24,46 @@ type gctx struct {
 	// (funcs and concurrent cases, see the exclusions in c10_test.go)
 	noCacheDyn bool
 	misuse     bool // allow a dynamic value at a compile-time literal position now and then
+	good       bool // constants only from the well-formed pools (bodies of user functions must load)
+	typedOnly  bool // nested calls always return the kind the position expects
+	cliSafe    bool // context values that survive argv and urfave's comma splitting
 	budget     int  // remaining calls
 	labels     map[string]bool
 }
 
-func (g *gctx) n(lo, hi int, label string) int { return rapid.IntRange(lo, hi).Draw(g.t, label) }
+// n draws uniformly from lo..hi. rapid.IntRange favours small magnitudes (a
+// geometric bit-length: 0 and 1 together get ~20% of 0..99), which would make
+// every "chance" fire far too often and starve the helpers at the end of the
+// table; fair bits (rapid.Bool) with rejection give a uniform draw and still
+// shrink towards lo.
+func (g *gctx) n(lo, hi int, label string) int {
+	span := hi - lo + 1
+	if span <= 1 {
+		return lo
+	}
+	nb := bits.Len(uint(span - 1))
+	v := 0
+	for try := 0; try < 6; try++ {
+		v = 0
+		for b := nb - 1; b >= 0; b-- {
+			if fairBit.Draw(g.t, label) {
+				v |= 1 << b
+			}
+		}
+		if v < span {
+			return lo + v
+		}
+	}
+	return lo + v%span
+}
+
+var fairBit = rapid.Bool()
+
 func (g *gctx) chance(pct int, label string) bool {
-	return rapid.IntRange(0, 99).Draw(g.t, label) < pct
+	return g.n(0, 99, label) < pct
 }
 func (g *gctx) pick(l []string, label string) string {
-	return l[rapid.IntRange(0, len(l)-1).Draw(g.t, label)]
+	return l[g.n(0, len(l)-1, label)]
 }
 func (g *gctx) label(s string) {
 	if g.labels != nil {
@@ -42,6 +74,9 @@ func (g *gctx) label(s string) {
 // constant of a kind. Inside a quoted sub-expression nothing that needs quotes.
 func (g *gctx) constant(k kind) *Node {
 	pool := pools[k]
+	if g.good && goodPools[k] != nil {
+		pool = goodPools[k]
+	}
 	if len(pool) == 0 {
 		pool = pools[kAny]
 	}
@@ -174,8 +209,16 @@ func (g *gctx) value(k kind, depth int) *Node {
 		}
 		return g.constant(k)
 	case kNonZero:
-		pbt.Exclude("zero-or-dynamic-divisor(C08 #2)")
-		return lit(g.pick(pools[kNonZero], "nz")) // constant, hoistable
+		// divisor / increment: mostly a non-zero constant; a zero or a value of
+		// the match gives the documented <VALUE> / <BAD-TYPE> markers
+		if g.good || g.chance(75, "nzConst") {
+			return lit(g.pick(pools[kNonZero], "nz")) // constant, hoistable
+		}
+		if g.chance(30, "nzZero") {
+			g.label("zero-divisor")
+			return lit("0")
+		}
+		return g.dynamic(kInt, false)
 	case kJSON:
 		if g.lam != 0 {
 			return elem(0)
@@ -260,15 +303,21 @@ func needsQuotes(f *fnSpec) bool {
 func (g *gctx) callOf(k kind, depth int) *Node {
 	g.budget--
 	// user functions
-	if len(g.defs) > 0 && g.chance(35, "userCall") {
+	// (never where the value controls output size: a body may multiply)
+	if len(g.defs) > 0 && k != kSmall && g.chance(35, "userCall") {
 		if c := g.userCall(depth, false); c != nil {
 			return c
 		}
 	}
 	var f *fnSpec
 	cands := byRet[k]
-	if len(cands) > 0 && g.chance(65, "typedFn") {
+	if len(cands) > 0 && (g.typedOnly || g.chance(65, "typedFn")) {
 		f = cands[g.n(0, len(cands)-1, "fnIdx")]
+	} else if g.typedOnly && k != kAny {
+		f = tableByName["len"]
+		if k != kSmall && k != kInt {
+			f = tableByName["coalesce"]
+		}
 	} else {
 		f = &table[g.n(0, len(table)-1, "fnAny")]
 	}
@@ -349,23 +398,48 @@ func (g *gctx) fixTime(c *Node) {
 	g.label("time-cache-dynamic")
 }
 
-// forCall: {@for start cond incr} from terminating shapes only.
+// forCall: {@for start cond incr}, only in shapes whose documented iteration
+// ends after a few rounds in EVERY context, the optimiser's all-empty probe
+// included: a comparison with a value read from the match is <BAD-TYPE>
+// (truthy) when that value is empty, which would run to @for's 1 000 000
+// round cap inside Compile. So: a value-bounded loop starts from a numeric
+// constant, an index-bounded loop may start anywhere, and a bound read from
+// the match is guarded by {isint ..}.
 func (g *gctx) forCall() *Node {
-	pbt.Exclude("for-with-key-lookup-or-open-loop(C08 #4)")
-	start := g.value(kSmall, 0)
 	limit := g.pick([]string{"3", "5", "8", "20"}, "forLimit")
 	step := g.pick([]string{"1", "2", "3"}, "forStep")
-	var cond, incr *Node
-	switch g.n(0, 2, "forShape") {
-	case 0: // value below a limit, value grows
+	var start, cond, incr *Node
+	switch g.n(0, 4, "forShape") {
+	case 0: // value below a limit, value grows: numeric constant start
+		// (not hoistable: read from the match it would be empty under the probe)
+		start = clit(g.pick([]string{"0", "1", "2", "-3", "7"}, "forStart"))
 		cond = lam(call("lt", elem(0), clit(limit)))
 		incr = lam(call("sumi", elem(0), clit(step)))
 	case 1: // index below a limit, value doubles
+		start = g.value(kSmall, 0)
 		cond = lam(call("lt", elem(1), clit(limit)))
 		incr = lam(call("sumi", elem(0), elem(0)))
-	default: // index bounded, value decorated
+	case 2: // index bounded, value decorated
+		start = g.value(kSmall, 0)
 		cond = lam(call("lt", elem(1), clit("4")))
 		incr = lam(lit("v"), elem(1))
+	case 3: // index bounded by a key of the match (keys pass through the sub-expression)
+		start = lit(g.pick([]string{"0", "1", "5"}, "forStart"))
+		cond = lam(call("if", call("isint", key("s")), call("lt", elem(1), key("s"))))
+		incr = lam(call("sumi", elem(0), clit(step)))
+		g.label("for-bound-from-key")
+	default: // increment reads a key of the match
+		start = lit(g.pick([]string{"0", "1", "5"}, "forStart"))
+		cond = lam(call("lt", elem(1), clit("4")))
+		incr = lam(call("sumi", elem(0), call("len", key("w"))))
+		g.label("for-key-in-increment")
+	}
+	if g.lam != 0 {
+		// nested inside another sub-expression: groups are the outer elements
+		// there, and a quoted text cannot hold another quoted text
+		if start.K != kLit {
+			start = lit("1")
+		}
 	}
 	cond.Bare = g.chance(50, "forBare")
 	incr.Bare = cond.Bare
@@ -547,10 +621,14 @@ func (g *gctx) form(depth int) *Form {
 	case 1:
 		return &Form{Op: "fn", S: g.pick([]string{"abs", "sqrt", "floor", "ceil", "round", "log10", "exp2", "sin"}, "formFn"), L: g.form(depth - 1)}
 	case 2:
-		// shifts and % only with small constant right operands (C08 #6, #7)
-		pbt.Exclude("formula-%-or-shift-by-dynamic-or-zero")
+		// integer operators: small right operands, now and then a reference
+		// (x % 0 and negative shifts are NaN)
 		op := g.pick([]string{"%", "<<", ">>"}, "formIntOp")
-		return &Form{Op: "bin", S: op, L: &Form{Op: "par", L: g.form(depth - 1)}, R: &Form{Op: "num", S: g.pick([]string{"1", "2", "3", "7"}, "formSmall")}}
+		var r *Form = &Form{Op: "num", S: g.pick([]string{"1", "2", "3", "7", "0"}, "formSmall")}
+		if g.chance(25, "formIntRef") {
+			r = g.formRef()
+		}
+		return &Form{Op: "bin", S: op, L: &Form{Op: "par", L: g.form(depth - 1)}, R: r}
 	default:
 		op := g.pick([]string{"+", "-", "*", "/", "+", "*", "^", "<", ">", "<=", ">=", "==", "&&", "||", " + ", " * "}, "formOp")
 		l, r := g.form(depth-1), g.form(depth-1)
@@ -745,8 +823,26 @@ func (g *gctx) definitions(max int) []*Def {
 				d.Body = append(d.Body, l)
 			}
 		}
-		// the body must start with something the name/body split cannot eat
-		// and end with a non-blank
+		// now and then one more piece reading a parameter the body already
+		// reads: every read re-evaluates the (lazy) argument
+		if len(d.Params) > 0 && g.chance(35, "readAgain") {
+			i := g.n(0, len(d.Params)-1, "againArg")
+			var c *Node
+			switch g.n(0, 4, "againShape") {
+			case 0:
+				c = call("upper", argn(i))
+			case 1:
+				c = call("eq", argn(i), argn(i))
+			case 2:
+				c = call("len", argn(i))
+			case 3:
+				c = call("coalesce", argn(i), key(g.keyFor(kAny)), argn(i))
+			default:
+				c = call("if", argn(i), argn(i), lit("none"))
+			}
+			d.Body = append(d.Body, c)
+			g.label("parameter-read-again")
+		}
 		g.body = nil
 		defs = append(defs, d)
 	}
@@ -891,6 +987,22 @@ type Ctx struct {
 	K [][2]pbt.S
 }
 
+// cliSafeValue: a value `rare expression --data=..` delivers unchanged (argv
+// cannot hold NUL, urfave/cli splits slice flags at commas and trims blanks
+// around every value).
+func cliSafeValue(v string) bool {
+	return !strings.ContainsAny(v, "\x00,") && utf8.ValidString(v) && strings.TrimSpace(v) == v
+}
+
+func (g *gctx) slotValue(k kind, label string) string {
+	vals := slotValues[k]
+	v := g.pick(vals, label)
+	if g.cliSafe && !cliSafeValue(v) {
+		v = "7"
+	}
+	return v
+}
+
 func (g *gctx) context() Ctx {
 	var c Ctx
 	ng := g.n(0, nGroups, "nGroups")
@@ -898,10 +1010,9 @@ func (g *gctx) context() Ctx {
 		ng = nGroups
 	}
 	for i := 0; i < ng; i++ {
-		vals := slotValues[groupKinds[i]]
-		v := g.pick(vals, "gval")
+		v := g.slotValue(groupKinds[i], "gval")
 		if g.chance(8, "crossKind") {
-			v = g.pick(slotValues[kWord], "gvalCross")
+			v = g.slotValue(kWord, "gvalCross")
 			if groupKinds[i] == kSmall {
 				v = "1"
 			}
@@ -912,8 +1023,7 @@ func (g *gctx) context() Ctx {
 		if g.chance(30, "dropKey") {
 			continue
 		}
-		vals := slotValues[groupKinds[i]]
-		c.K = append(c.K, [2]pbt.S{pbt.S(name), pbt.S(g.pick(vals, "kval"))})
+		c.K = append(c.K, [2]pbt.S{pbt.S(name), pbt.S(g.slotValue(groupKinds[i], "kval"))})
 	}
 	return c
 }
